@@ -925,6 +925,10 @@ public:
       const uint32 numElements = unflat.ReadInt32();
       MRETURN_ON_ERROR(unflat.GetStatus());
 
+      // Each element is preceded by a 4-byte length-prefix, so the buffer can't possibly hold more elements than this
+      // (without this check, a tiny malformed buffer could make us allocate an enormous array below)
+      if (numElements > (unflat.GetNumBytesAvailable()/sizeof(uint32))) return B_BAD_DATA;
+
       this->Clear(false);
       MRETURN_ON_ERROR(this->_data.EnsureSize(numElements, true));
       return unflat.ReadFlatsWithLengthPrefixes(this->_data.HeadPointer(), numElements);
